@@ -23,6 +23,9 @@ def main():
     if "--round4" in sys.argv:
         base = "/tmp/wt4"
         label = {"A": "G"}[x]
+    if "--round5" in sys.argv:
+        base = "/tmp/wt5"
+        label = {"A": "H"}[x]
     src = f"{base}/{prop}/seeded"
     patch = f"{src}/{x}.patch"
     demo = f"{src}/demo_{x.lower()}.rs"
